@@ -790,6 +790,17 @@ pub(super) fn bl(
         // get operands
         let dst = operand_load(block, &instruction.operands()[0], 64)?;
 
+        // the target may be x30 itself (blr x30): read it before writing the
+        // link register
+        let dst = match dst {
+            il::Expression::Constant(_) => dst,
+            _ => {
+                let target = temp0(instruction, 64);
+                block.assign(target.clone(), dst);
+                target.into()
+            }
+        };
+
         block.assign(
             scalar!("x30"),
             il::expr_const(instruction.address().wrapping_add(4), 64),
